@@ -106,7 +106,3 @@ pub broadcast axiom fn axiom_decimal_injective(a: nat, b: nat)
 
 } // mod tb
 pub use tb::*;
-
-// T12. slice::sort permutes its argument (that the result is ordered is not needed anywhere)
-pub assume_specification<T: Ord>[ <[T]>::sort ](s: &mut [T])
-    ensures final(s)@.to_multiset() == old(s)@.to_multiset();
